@@ -179,6 +179,24 @@ def stepLine (st : St) (line : String) : St × String :=
       | some k => (.ua (ty == "trk") k (fun _ => none), "ok")
       | none => (.none, "bad-reset")
   | "reset" :: _ => (.none, "ok")
+  | ["premain"] =>
+      -- the history the harness's init_priority(101) objects ran before main(), on the model
+      let one (port : Bool) : String :=
+        let c : Cfg := ⟨3, 2, port, false⟩
+        let v := match runW 64 c [.new 0, .push 0 1, .push 0 2, .push 0 3, .push 0 4, .copy 1 0, .resize 0 1] Mach.init with
+          | .ok m => " ".intercalate ((List.range 2).map fun r => match m.regs r with
+              | some v => s!"{v.size}/{v.room 3}[{",".intercalate (v.contents.map showElem)}]"
+              | none => "-")
+          | .error f => showFault f
+        let s := match (do
+            let s ← sCtorPtrW 64 3 (junkOf 3) [0x61, 0x62, 0x63, 0x64, 0x65, 0x66, 0]
+            let s ← sPushW 64 3 s 0x78
+            let (s, out) ← sCStr s
+            pure (s.size, out)) with
+          | .ok (n, out) => s!"{n}:{String.mk (out.map fun (b : Byte) => Char.ofNat b.toNat)}"
+          | .error f => showFault f
+        s!"{v} {s}"
+      (st, s!"c={one false} p={one true}")
   | _ =>
     match st with
     | .none => (.none, "no-case")
